@@ -33,6 +33,10 @@ func c04Gen(t *rapid.T, cx *h.Ctx) C04Case {
 	valid := rapid.IntRange(0, 2).Draw(t, "validfamily") == 0
 	o := gen.Opts{XY: gen.FiniteFloat, ZM: gen.AnyFloat, CT: -1, AllowZero: true, ValidShapes: valid}
 	c := C04Case{G: gen.Structure(t, o), Valid: valid}
+	if !valid && rapid.IntRange(0, 5).Draw(t, "closingzero") == 0 {
+		// closing position equal to the first numerically, not bit for bit (0 against -0)
+		c.G = closingSignedZero(c.G, rapid.SliceOfN(rapid.IntRange(0, 15), 1, 4).Draw(t, "closingzeroseeds"))
+	}
 	c.Orders = rapid.SliceOfN(rapid.Bool(), 1, 12).Draw(t, "orders")
 	c.Trailing = hex.EncodeToString(rapid.SliceOfN(rapid.Byte(), 0, 9).Draw(t, "trailing"))
 	c.Prefix = hex.EncodeToString(rapid.SliceOfN(rapid.Byte(), 0, 5).Draw(t, "prefix"))
@@ -113,7 +117,7 @@ func c04Check(c C04Case, cx *h.Ctx) *h.Failure {
 			backing[i] = 0xA5
 		}
 		copy(backing, prefix)
-		dst := backing[:len(prefix):len(prefix)+spare]
+		dst := backing[: len(prefix) : len(prefix)+spare]
 		app := g.AppendWKB(dst)
 		if !bytes.Equal(app, append(append([]byte(nil), prefix...), lib...)) {
 			return h.Failf("wkb/append", "AppendWKB(prefix with %d spare bytes) != prefix||AsBinary() for %s", spare, model)
